@@ -39,6 +39,14 @@ var corpus = []string{
 	"WITH x AS (SELECT 1) SELECT * FROM x; ATTACH '%DIR%/a.db' AS a", "SELECT 1 WHERE 1 IN (SELECT 1); VACUUM",
 	"(SELECT 1) UNION (DELETE FROM trace)", "SELECT (DELETE FROM trace)", "SELECT * FROM (DELETE FROM trace RETURNING *)",
 	"WITH d AS (DELETE FROM trace RETURNING *) SELECT * FROM d", "SELECT 1 FROM trace; PRAGMA query_only = OFF; DELETE FROM trace",
+	// accepted by the filter, refused by SQLite while COMPILING the statement (prepare time)
+	"SELECT Locaton FROM trace", "SELECT * FROM no_such_table", "SELECT ID FROM trace WHERE", "SELECT nosuchfunc(ID) FROM trace",
+	"WITH x AS (SELECT 1) SELECT * FROM y", "SELECT ID, FROM trace", "SELECT * FROM trace GROUP", "select t.ID from trace u",
+	"WITH x AS (SELECT 1) DELETE FROM trace RETURNING ID", "WITH x AS (SELECT 1) UPDATE trace SET Kind = 'q' RETURNING ID",
+	"SELECT count(*) FROM trace ORDER BY nosuch", "SELECT 1 FROM trace JOIN location USING (nope)", "SELECT (1,2)", "SELECT 1 +",
+	// refused while STEPPING (the statement compiles; query_only stops it inside the row loop)
+	"WITH x AS (SELECT 1) DELETE FROM trace RETURNING ID /* limit 1 */", "WITH x AS (SELECT 1) INSERT INTO location VALUES (7,'s') RETURNING ID -- limit 2",
+	"SELECT abs(-9223372036854775808)", "SELECT json_extract('{', '$.a') limit 1",
 	// LIMIT spellings
 	"SELECT * FROM big", "SELECT * FROM big LIMIT 99999999", "SELECT * FROM big limit 1 offset 5", "SELECT * FROM big -- limit 5",
 	"SELECT 'limit 5', * FROM big", "SELECT * FROM big /* LIMIT 5 */", "SELECT * FROM big LIMIT\t2000", "SELECT * FROM big LIMIT\v5",
